@@ -117,6 +117,7 @@ type LayoutCfg struct {
 	DecoyLast    bool `json:"decoy_last,omitempty"`     // ... placed behind the swap output
 	NestedInput  bool `json:"nested_input,omitempty"`   // tier 2/3: the wallet funds with a nested-segwit coin (final txid differs from the unsigned one)
 	SpendChange  bool `json:"spend_change,omitempty"`   // wallet later spends its change output
+	RandomPos    bool `json:"random_pos,omitempty"`     // the wallet daemon places the outputs it adds at a random position, anew for every funding (elementsd, lwk)
 	FeeMult      int  `json:"fee_mult,omitempty"`       // tier 2/3: the funding costs this many times the usual fee (a wallet of many small coins)
 }
 
